@@ -562,6 +562,11 @@ func (c *Ctx) c12TOTPReplay() {
 				except[p.Method] = "not a one-time secret (decided under C13)"
 			}
 		}
+		if !has && len(CallsTo(fn, fnTOTPValidate)) > 0 {
+			// a code is validated here (enrolment is confirmed with one) and never
+			// recorded: the first login afterwards accepts the very same code
+			r.Bad("C12.totp-replay-save", FuncName(fn), "PutTOTPLastCode after totp.Validate", posf(c, CallsTo(fn, fnTOTPValidate)[0]), "a TOTP code is validated here but not recorded as the user's last code (for users with replay protection): the same code is accepted again by the next validation inside its time window")
+		}
 		if has {
 			c.mustSaveAfterPut("C12.totp-replay-save", fn, except)
 			// for a replay-protected user the code is recorded on every path from its
